@@ -936,3 +936,28 @@ def alarm_source_draw_as_value(src):
     pen = src.glyphs[0].getPen()
     d = src.glyphs[1].draw
     d(pen)
+
+
+# ---- a function that can fall off its end returns None ------------------------------------------------------------------------
+def _maybe_foo(x):
+    if x.flag:
+        return _Foo()
+
+
+def alarm_implicit_none_return(src):
+    y = _maybe_foo(src)
+    if y is None:
+        src.width = 1
+
+
+def _always_foo(x):
+    if x.flag:
+        return _Foo()
+    else:
+        return _Foo()
+
+
+def ok_no_implicit_none_return(src):
+    y = _always_foo(src)
+    if y is None:
+        src.width = 1
